@@ -376,10 +376,11 @@ def run(ctx):
     ]
     ctx.assumptions = ["equality is claimed for pairings in which at least one side is a UnionCal or NamedCal (Cal == Cal is Rust's derived field equality)",
                        "supported range = 1970-01-01..2200-12-31 = day numbers 0..84370"]
-    gen_dir = os.path.join(COQ, "theories", "Gen")
-    summ = translate.generate(REPO, gen_dir)
-    named_dir = os.path.join(REPO, "rust", "calendars", "named")
-    mods = {m: translate.parse_table(os.path.join(named_dir, m + ".rs")) for m in summ["mods"]}
+    cmd = "make -C coq theories/Props/C06.vo && coqc Assum_C06.v (Print Assumptions)"
+    summ = translate_stage(ctx)
+    if summ is None:
+        return ctx.finish(cmd)
+    mods = dict(summ["tables"])
     wm, wh = dict(summ["wiring_mask"]), dict(summ["wiring_hols"])
     tabs = {n: (mods[wm[n]][0], mods[wh[n]][1]) for n in wm if n in wh}
     cmd = "make -C coq theories/Props/C06.vo && coqc Assum_C06.v (Print Assumptions)"
